@@ -72,6 +72,8 @@ def short(nodes):
             out.append("%s[%s]" % (n["mem"], n["t"]))
         elif n["kind"] == "T":
             out.append("for %s:%s" % (n["rv"], n["tile"]))
+        elif n["kind"] == "P":
+            out.append("spatial-%s-%s %s:%s" % (n.get("mem"), n.get("dim"), n["rv"], n["tile"]))
         else:
             out.append("MAC")
     return " / ".join(out)
